@@ -15,8 +15,8 @@
 //!   pub_new_from_bytes/_files/_binaries_dir, agg_new, agg_with_limits
 //!                               pin the canonical private-batch circuit: valid deviating templates are canonical
 //!                               private-batch proofs over one REAL spend
-//! An invalid proof is a valid one whose public inputs (or, when no sentinel field deviates, whose opening values)
-//! were changed after proving.  The harness reports what happened (Ok / Err / panic, whether the build step published
+//! An invalid proof is a valid one with a public input changed after proving (a non-sentinel one - fee or nullifier -
+//! when the sentinel fields are to stay as they are; the sentinel fields themselves when no valid proof can carry them).  The harness reports what happened (Ok / Err / panic, whether the build step published
 //! a dummy private-batch proof); the verdict is decided in Python against the model.
 use crate::canon::{Canon, VData};
 use anyhow::{anyhow, bail, Result};
